@@ -8,8 +8,16 @@ package verifc07
 // ResourceManager, every call and every execution of a user function stamped by one global atomic
 // counter. One section = one concurrent run; one line = one call:
 //
-//	call id=<n> g=<goroutine> key=<k> ex=<0|1> pre=<n> yield=<n> err=<0|1> hold=<0|1> [panic=1]
-//	   => inv=<stamp> ret=<stamp> val=<id|nil> fresh=<0|1|-> err=<id|-> fs=<stamp|-> fe=<stamp|-> runs=<n> stuck=<0|1> [panic=1]
+//	call id=<n> g=<goroutine> key=<k> ex=<0|1> pre=<n> yield=<n> err=<0|1> hold=<0|1> [panic=1] [pk=<1|2|3>] [ek=<1..4>] [ep=<0..3>]
+//	   => inv=<stamp> ret=<stamp> val=<id|nil> fresh=<0|1|-> err=<id|-> fs=<stamp|-> fe=<stamp|-> runs=<n> stuck=<0|1> [panic=<1|2>]
+//
+// Outcome kinds of the user function (round 5): err=1 with ek = 1 pointer error (*Err), 2 wrapped (fmt.Errorf("%w")),
+// 3 value-typed error (ErrV), 4 typed-nil error ((*Err)(nil): a non-nil interface around a nil pointer; sf / lc only,
+// where the value returned next to it names the execution); panic=1 with pk = 1 panic(string), 2 panic(error value),
+// 3 runtime.Goexit() (the deferred cleanup runs, the goroutine ends: the call is made on a child goroutine). Every error
+// must come back as THE SAME error value (identity), else err=bad.  ep: which public entry point of the user is called
+// (cacheNode: 0 Take, 1 TakeWithExpire, 2 TakeCtx, 3 TakeWithExpireCtx).  Observed panic=1: the call panicked; panic=2:
+// the call's goroutine was ended by runtime.Goexit.
 //
 // ResourceManager sections may also contain
 //
@@ -25,6 +33,7 @@ package verifc07
 
 import (
 	"bufio"
+	"errors"
 	"fmt"
 	"os"
 	"runtime"
@@ -42,7 +51,22 @@ type Val struct{ ID int }
 
 type Err struct{ ID int }
 
-func (e *Err) Error() string { return fmt.Sprintf("e%d", e.ID) }
+func (e *Err) Error() string {
+	if e == nil {
+		return "e<typed nil>"
+	}
+	return fmt.Sprintf("e%d", e.ID)
+}
+
+// ErrV is a value-typed (comparable, non-pointer) error.
+type ErrV struct{ ID int }
+
+func (e ErrV) Error() string { return fmt.Sprintf("ev%d", e.ID) }
+
+// PanicErr is the error value of a pk=2 panic.
+type PanicErr struct{ ID int }
+
+func (e *PanicErr) Error() string { return fmt.Sprintf("c07: scripted panic (error value) of call %d", e.ID) }
 
 type Res struct {
 	ID     int
@@ -56,6 +80,9 @@ type Call struct {
 	id, g, key            int
 	ex, serr, hold        bool
 	spanic                bool
+	pk, ek, ep            int
+	errObj                error // the error value this call's function returned (under mu)
+	goexit                bool  // the call's goroutine was ended by runtime.Goexit
 	pre, yield            int
 	inv, ret, fs, fe      int64
 	val, fresh, err       string
@@ -77,7 +104,7 @@ func parse(text string) (*Call, bool) {
 	}
 	return &Call{text: text, id: c.Int("id", -1), g: c.Int("g", 0), key: c.Int("key", 0),
 		ex: c.Int("ex", 0) == 1, serr: c.Int("err", 0) == 1, hold: c.Int("hold", 0) == 1,
-		spanic: c.Int("panic", 0) == 1,
+		spanic: c.Int("panic", 0) == 1, pk: c.Int("pk", 1), ek: c.Int("ek", 1), ep: c.Int("ep", c.Int("ex", 0)),
 		pre: c.Int("pre", 0), yield: c.Int("yield", 0), val: "nil", fresh: "-", err: "-"}, true
 }
 
@@ -141,6 +168,23 @@ type Target struct {
 func (c *Call) Key() int { return c.key }
 func (c *Call) ID() int  { return c.id }
 func (c *Call) Ex() bool { return c.ex }
+func (c *Call) G() int   { return c.g }
+
+// EP is the public entry point of the user this call goes through (0 unless the op says ep=<n>).
+func (c *Call) EP() int { return c.ep }
+
+// mkErr is the error value of call c's function (kind ek).
+func mkErr(c *Call) error {
+	switch c.ek {
+	case 2:
+		return fmt.Errorf("c07 wrapped: %w", &Err{c.id})
+	case 3:
+		return ErrV{c.id}
+	case 4:
+		return (*Err)(nil)
+	}
+	return &Err{c.id}
+}
 
 func Spin(n int) {
 	for i := 0; i < n; i++ {
@@ -248,11 +292,24 @@ func RunSection(cfg verifh.Cfg, ops []string, mk func(cfg verifh.Cfg) Target) []
 			c.fe = e
 			mu.Unlock()
 			if c.spanic {
+				switch c.pk {
+				case 2:
+					panic(&PanicErr{c.id})
+				case 3:
+					runtime.Goexit()
+				}
 				panic(fmt.Sprintf("c07: scripted panic of call %d", c.id))
+			}
+			var e0 error
+			if c.serr {
+				e0 = mkErr(c)
+				mu.Lock()
+				c.errObj = e0
+				mu.Unlock()
 			}
 			if mode == "rm" {
 				if c.serr {
-					return nil, &Err{c.id}
+					return nil, e0
 				}
 				res := &Res{ID: c.id}
 				mu.Lock()
@@ -261,7 +318,7 @@ func RunSection(cfg verifh.Cfg, ops []string, mk func(cfg verifh.Cfg) Target) []
 				return res, nil
 			}
 			if c.serr {
-				return Val{c.id}, &Err{c.id}
+				return Val{c.id}, e0
 			}
 			return Val{c.id}, nil
 		}
@@ -280,16 +337,29 @@ func RunSection(cfg verifh.Cfg, ops []string, mk func(cfg verifh.Cfg) Target) []
 					fresh = "-"
 				)
 				inv := stamp.Add(1)
-				func() {
+				invoke := func() {
+					returned := false
 					defer func() {
-						if p := recover(); p != nil {
+						p := recover()
+						if !returned {
+							// the call ended without returning: a panic (recovered here) or runtime.Goexit (p == nil)
 							mu.Lock()
 							c.panicked = true
+							c.goexit = p == nil
 							mu.Unlock()
 						}
 					}()
 					v, fresh, err = tg.Invoke(c, fn)
-				}()
+					returned = true
+				}
+				if c.spanic && c.pk == 3 {
+					// the function may end its goroutine (runtime.Goexit): the call is made on a goroutine of its own
+					ch := make(chan struct{})
+					go func() { defer close(ch); invoke() }()
+					<-ch
+				} else {
+					invoke()
+				}
 				ret := stamp.Add(1)
 				mu.Lock()
 				c.inv, c.ret, c.fresh, c.done = inv, ret, fresh, true
@@ -303,10 +373,8 @@ func RunSection(cfg verifh.Cfg, ops []string, mk func(cfg verifh.Cfg) Target) []
 				default:
 					c.val = "bad"
 				}
-				if e, ok := err.(*Err); ok {
-					c.err = fmt.Sprint(e.ID)
-				} else if err != nil {
-					c.err = "bad"
+				if err != nil {
+					c.err = errName(err, v, calls)
 				}
 				mu.Unlock()
 				if c.free {
@@ -409,12 +477,38 @@ func RunSection(cfg verifh.Cfg, ops []string, mk func(cfg verifh.Cfg) Target) []
 		}
 		out[idx[c]] = fmt.Sprintf("inv=%d ret=%d val=%s fresh=%s err=%s fs=%s fe=%s runs=%d stuck=%d",
 			c.inv, c.ret, c.val, c.fresh, c.err, dash(c.fs), dash(c.fe), c.runs, st)
-		if c.panicked {
+		if c.panicked && c.goexit {
+			out[idx[c]] += " panic=2"
+		} else if c.panicked {
 			out[idx[c]] += " panic=1"
 		}
 	}
 	_ = allOk
 	return out
+}
+
+// errName names the execution an error value came from: the id inside it, checked to be THE error value that
+// execution's function returned (identity: the same pointer / the same comparable value, not a copy, not unwrapped);
+// a typed-nil error carries no id and is attributed through the value returned next to it.  Called under mu.
+func errName(err error, v any, calls []*Call) string {
+	id := -1
+	var pe *Err
+	var ve ErrV
+	if e, ok := err.(*Err); ok && e == nil {
+		if x, ok := v.(Val); ok {
+			id = x.ID
+		}
+	} else if errors.As(err, &pe) && pe != nil {
+		id = pe.ID
+	} else if errors.As(err, &ve) {
+		id = ve.ID
+	}
+	for _, c := range calls {
+		if c.id == id && c.errObj != nil && c.errObj == err {
+			return fmt.Sprint(id)
+		}
+	}
+	return "bad"
 }
 
 // ---------------------------------------------------------------- generator
@@ -529,10 +623,29 @@ func Gen(r *verifh.Rng, nsec int, via string) []verifh.Section {
 						ex = 1
 					}
 				}
+				ep := -1
+				if via == "cacheNode.Take" {
+					// all four public entry points into doTake: 0 Take, 1 TakeWithExpire, 2 TakeCtx, 3 TakeWithExpireCtx
+					ep = r.Intn(4)
+					ex = ep % 2
+				}
 				op := fmt.Sprintf("call id=%d g=%d key=%d ex=%d pre=%d yield=%d err=%d hold=%d",
 					id, gi, key, ex, pre, yield, serr, hold)
 				if panicSec && hold == 0 && r.Chance(1, 4) {
-					op += " panic=1"
+					// how the function ends abnormally: panic(string), panic(error value), runtime.Goexit()
+					op += fmt.Sprintf(" panic=1 pk=%d", r.Pick(1, 2, 3))
+				}
+				if serr == 1 {
+					// the class of the error value: pointer, wrapped, value-typed, typed nil (only where a value next to
+					// the error names the execution: sf / lc)
+					ek := r.Pick(1, 1, 2, 3)
+					if mode != "rm" && r.Chance(1, 5) {
+						ek = 4
+					}
+					op += fmt.Sprintf(" ek=%d", ek)
+				}
+				if ep >= 0 {
+					op += fmt.Sprintf(" ep=%d", ep)
 				}
 				ops = append(ops, op)
 			}
@@ -540,6 +653,12 @@ func Gen(r *verifh.Rng, nsec int, via string) []verifh.Section {
 		cfg := fmt.Sprintf("mode=%s g=%d k=%d procs=%d objs=%d", mode, g, k, procs, objs)
 		if via != "" {
 			cfg += fmt.Sprintf(" opt=%d", r.Pick(0, 0, 1, 2))
+		}
+		if via == "cacheNode.Take" {
+			// dst=1: every goroutine takes into ONE destination variable, call after call, and overwrites it as soon as a
+			// Take has returned (a caller may do with its own variable what it likes once its call is over): what a
+			// sharer of the flight is handed must be a snapshot made inside the execution, not the leader's memory
+			cfg += fmt.Sprintf(" dst=%d", r.Pick(1, 1, 0))
 		}
 		if via != "" {
 			cfg += " via=" + via
